@@ -137,7 +137,7 @@ func c03Client(p *ana.Prog, r *ana.Result, name string, scion bool) {
 		r.Violate("C03.table", fname, "era-reference", p.Pos(fn.Pos()), "the era reference of TimeFromTime64 is not the clock reading taken before the send")
 	}
 	// interleavedResp flag: the phi that selects between the arms
-	t0 := args[0].(*ssa.Phi)
+	t0, _ := args[0].(*ssa.Phi)
 	if t0 == nil {
 		r.Violate("C03.table", fname, "arms", posOf(p, co[0]), "UNDECIDED: t0 is not selected between a basic and an interleaved arm")
 		return
